@@ -242,8 +242,9 @@ theorem FW.owner_step (cfg : Config R) (hfx : cfg.fx = Fixes.repaired) (ext : Ex
       · have hcur : cur = [] := by
           by_contra h; exact hne h hmsn
         subst hcur; subst hmsn
+        have hns : cfg.fx.nanSafe = true := by rw [hfx]; rfl
         simp only [guardOk, har, if_true, List.isEmpty_nil, Bool.not_true, Bool.false_eq_true,
-          if_false] at e
+          if_false, hns, FW.init_nil] at e
         injection e with e1 e2; subst e1; subst e2
         exact ⟨Or.inl rfl, by simp [allocate], by simp [allocate]⟩
       · have hg : guardOk cfg.fx ms = true := by simp [guardOk, har, hmsn]
@@ -529,8 +530,9 @@ theorem LQ.owner_step (cfg : Config R) (hfx : cfg.fx = Fixes.repaired) (hw : 0 <
       · have hcur : cur = [] := by
           by_contra h; exact hne h hmsn
         subst hcur; subst hmsn
+        have hns : cfg.fx.nanSafe = true := by rw [hfx]; rfl
         simp only [guardOk, har, if_true, List.isEmpty_nil, Bool.not_true, Bool.false_eq_true,
-          if_false] at hstep
+          if_false, hns, LQ.init_nil] at hstep
         have e := Except.ok.inj hstep
         injection e with e1 e2; subst e1; subst e2
         exact ⟨Or.inl rfl, by simp [allocate], by simp [allocate]⟩
